@@ -67,14 +67,20 @@ ObsTags(o) ==
 \* the supported messages" - every deviation of an output is therefore also a C06 deviation
 Own(tags) == IF tags # {} THEN tags \cup {<<"C06", "outputs">>} ELSE tags
 
+Beyond == IF ~over' THEN {}
+          ELSE IF e.op = "b" /\ e.o[1] # gate' THEN {"C04", "C05", "C06"} ELSE {"C04", "C06"}
+
 Advance(tags) ==
   /\ l' = l + 1
   \* beyond 32 outstanding notes the premise of C04 no longer holds: which note sounds (and hence C06's
   \* decode-and-apply image of it) is not reported any more in this run; the edge latches, controllers
   \* and pitch bend still are (the specification models the 33rd note-on as built: not remembered, but
   \* gate, velocity and rising edge as for any note-on)
-  /\ dead' = (IF over' THEN {"C04", "C06"} ELSE {}) \cup dead \cup PropsOf(tags)
-  /\ Flag(l, LiveTags(tags, (IF over' THEN {"C04", "C06"} ELSE {}) \cup dead))
+  \* ... as long as the observed gate agrees with the specification's: the edges are stated relative to
+  \* gate() itself, and which keys an overflowing list remembers (hence when the gate drops) is not
+  \* specified - from the first disagreement on C05 is not reported in this run either
+  /\ dead' = Beyond \cup dead \cup PropsOf(tags)
+  /\ Flag(l, LiveTags(tags, Beyond \cup dead))
 
 ---------------------------------------------------------------------------
 TNew ==
